@@ -348,45 +348,32 @@ def _key_kind(e, js_names, py_names):
 @rule("K4", "JSON names and Python names are never mixed: look-ups by JSON name get JSON-named keys, emitted schemas use JSON names")
 def k4(ctx, res):
     # S1: Properties.__call__ - everything merged into the iterated mapping is keyed like the input (JSON names)
-    pc = ctx.func("Properties.__call__")
-    v = pc.params[1].name
-    vpc = view(pc, ctx.prog, keep=(v,)).body
-    bpc = builders(vpc)
+    from .rules_g import props_call_model
+    M = ctx.get("props_call_model", lambda c: props_call_model(c))
+    pc = M["func"]
+    v = M["v"]
     n = 0
+    for ph in M["placeholders"]:
+        n += 1
+        res.judge(True if ph["key_kind"] == "JS" else (False if ph["key_kind"] == "PY" else None), pc,
+                  f"placeholder key {ph.get('key', ph['elt'])}", detail={"kind": ph["key_kind"]},
+                  reason="placeholders for omitted properties are merged with the input (keyed by JSON names) and "
+                         "looked up by JSON (source) name: they must be keyed by the property's source, or a "
+                         "renamed property never receives its default")
+    vpc = M.get("body") or view(pc, ctx.prog, keep=(v,)).body
     for node in walk_own(vpc):
-        if isinstance(node, ast.Assign) and any(norm(t) == v for t in node.targets) and isinstance(node.value, ast.Dict):
-            for k, val in zip(node.value.keys, node.value.values):
-                if k is None and norm(val) == v:
-                    continue
-                inner = val if k is None else None
-                srcs = []
-                if isinstance(inner, ast.DictComp):
-                    srcs = [b for b in bpc if b.node is inner]
-                elif isinstance(inner, ast.Name):
-                    srcs = [b for b in bpc if b.name == inner.id and b.kind == "dict"]
-                if srcs:
-                    for b in srcs:
-                        n += 1
-                        kind = _key_kind(b.key, set(), set())
-                        res.check(kind == "JS", pc, f"placeholder key {norm(b.key)}", detail={"kind": kind},
-                                  reason="placeholders for omitted properties are merged with the input (keyed by JSON names) and "
-                                         "looked up by JSON (source) name: they must be keyed by the property's source, or a "
-                                         "renamed property never receives its default")
-                elif isinstance(inner, ast.Call) and dotted(inner.func) == "dict.fromkeys" and inner.args:
-                    # keys are the members of the iterated object: the property mapping (and Properties itself, whose
-                    # __iter__ walks it) is keyed by PYTHON attribute names
+        if isinstance(node, ast.Dict) and node is M["merged"]:
+            for sp in node.values:
+                if isinstance(sp, ast.Call) and dotted(sp.func) == "dict.fromkeys" and sp.args:
                     n += 1
-                    src = norm(inner.args[0])
+                    src = norm(sp.args[0])
                     it = pc.cls.methods.get("__iter__") if pc.cls is not None else None
                     self_iterates_props = it is not None and has("iter(self.props)", it)
                     py_keyed = src in ("self.props", "self.props.keys()", "list(self.props)") or (src == "self" and self_iterates_props)
-                    res.judge(False if py_keyed else None, pc, f"placeholder keys: {norm(inner)[:60]}",
+                    res.judge(False if py_keyed else None, pc, f"placeholder keys: {norm(sp)[:60]}",
                               reason="placeholders for omitted properties are merged with the input (keyed by JSON names) and "
                                      "looked up by JSON (source) name: keyed by the Python attribute names, a renamed property "
                                      "never receives its default")
-                elif k is not None or inner is not None:
-                    n += 1
-                    res.unrecognised(pc, norm(node)[:80], reason="a member of unknown key kind is merged into the value mapping")
         elif isinstance(node, ast.Call) and isinstance(node.func, ast.Attribute) and norm(node.func.value) == v \
                 and node.func.attr in ("setdefault", "update", "__setitem__"):
             n += 1
@@ -411,11 +398,9 @@ def k4(ctx, res):
     res.judge(req_ok, ser, "required members are prop.source or name", reason="`required` lists JSON names")
     # S3: object instances are populated under Python names
     ok = None
-    for b in bpc:
-        if b.kind == "dict" and norm(b.iter) == f"{v}.items()" and isinstance(b.target, ast.Tuple):
-            k = norm(b.target.elts[0])
-            good = norm(b.key) == f"self[{k}].name or {k}"
-            ok = good if ok is None else (ok and good)
+    if M["result"] is not None:
+        k = norm(M["result"].target.elts[0])
+        ok = norm(M["result"].key) == f"self[{k}].name or {k}"
     res.judge(ok, pc, "result key: self[key].name or key", reason="declared members are exposed under their Python names")
     # S4: the parser records the JSON name on every property it creates
     n_prop_calls = 0
@@ -488,6 +473,8 @@ def _safe_interp(e, f, ctx, depth=0):
                 return True, "join of safe parts"
             if isinstance(args, ast.Name):
                 return _safe_local(args.id, f, ctx, depth + 1)
+            if isinstance(args, ast.Call) and isinstance(args.func, ast.Attribute) and args.func.attr in ("split", "splitlines"):
+                return _safe_interp(args.func.value, f, ctx, depth + 1)
             if isinstance(args, ast.Call) and dotted(args.func) in ("filter", "sorted"):
                 inner = args.args[-1]
                 return _safe_interp(ast.Call(func=e.func, args=[inner], keywords=[]), f, ctx, depth + 1) \
@@ -639,7 +626,7 @@ def k5(ctx, res):
             import sys as _sys
             verdict = None
             detail = {}
-            for node in walk_own(g.body):
+            for node in walk_own(view(g, ctx.prog).body):
                 if isinstance(node, (ast.GeneratorExp, ast.ListComp)) and len(node.generators) == 1 and isinstance(node.elt, ast.IfExp) \
                         and isinstance(node.generators[0].target, ast.Name):
                     var = node.generators[0].target.id
@@ -928,7 +915,7 @@ def k8(ctx, res):
             res.check(not shared or only_schema, f, node, detail={"owner": effects.fmt_atoms(v.own)},
                       reason="the returned element is built in this call (fresh) - not taken from the parse state or a "
                              "module-level cache, where a later `element.default = ...` would leak into unrelated elements")
-    res.floor("parser_returns", n, 25)
+    res.floor("parser_returns", n, 14)
 
 
 
@@ -964,7 +951,7 @@ def k9(ctx, res):
                      "empty docstring, which a truthiness test refuses to read back (description '' becomes not-passed: the "
                      "executed class differs from the parsed one)")
     py = ctx.func("ObjectMeta.python")
-    uses = [n for n in walk_own(py.body) if isinstance(n, ast.FormattedValue) and "description" in norm(n.value)]
+    uses = [n for n in walk_own(view(py, ctx.prog).body) if isinstance(n, ast.FormattedValue) and "description" in norm(n.value)]
     ok = None
     if uses:
         ok = all(norm(u.value) in ("_docstring(cls.description)", "repr(cls.description)") or u.conversion == 114 for u in uses)
